@@ -235,6 +235,9 @@ class NonBondEngine():
         """
         for mol_idx, molecule in enumerate(molecules):
             for node in molecule.nodes:
+                # molecules that are ignored are not part of the engine
+                if (mol_idx, node) not in self.nodes_to_gndx:
+                    continue
                 gndx = self.nodes_to_gndx[(mol_idx, node)]
                 molecule.nodes[node]["position"] = self.positions[gndx]
 
@@ -339,19 +342,25 @@ class NonBondEngine():
         return prob
 
     @classmethod
-    def from_topology(cls, molecules, topology, box):
+    def from_topology(cls, molecules, topology, box, ignore=()):
         """
         Create a class instance from a topology object,
-        a list of molecules and a box.
+        a list of molecules and a box. Molecules with a
+        name listed in `ignore` are not part of the engine,
+        but all other molecules keep the index they have
+        in `molecules`.
 
         Parameters:
         -----------
         molecules: list
         topology: :class:`polyply.src.topology`
         box: np.nadarray
+        ignore: abc.iteratable[str]
+            names of molecules to leave out
         """
 
-        n_atoms = _n_particles(molecules)
+        n_atoms = _n_particles([molecule for molecule in molecules
+                                if molecule.mol_name not in ignore])
 
         # array of all positions
         positions = np.ones((n_atoms, 3)) * np.inf
@@ -363,6 +372,10 @@ class NonBondEngine():
         idx = 0
         mol_count = 0
         for molecule in molecules:
+            if molecule.mol_name in ignore:
+                mol_count += 1
+                continue
+
             for node in molecule.nodes:
                 if "position" in molecule.nodes[node]:
                     # check if position is inside grid
